@@ -17,6 +17,21 @@ model) defines `cex_<f>` = the candidate inputs on which they disagree; the
 first one is reported as violation "code:<f>" with the input and both results.
 If the generated definition is not translatable (type go_unknown) or no
 candidate disagrees, vlib's no-failing-input-found path applies.
+
+A "code:<f>" violation claims a concrete failing input of the REAL code, so it
+is only as good as the translation.  Two safeguards: (a) the violation text and
+its replay carry the text of the generated Gallina definitions the comparison
+ran (gen_<f> and every generated definition it calls), so a reader can hold it
+against the Go source; (b) if that text contains a construct of NEEDS_REVIEW -
+shapes next to Go's reference semantics that the translator accepts (two live
+names for one slice storage, both read-only from there on) - the disagreement
+is NOT reported as a violation: it is recorded under coverage/notes and the
+failed lemma stays a broken obligation (vlib's no-failing-input-found path).
+Everything else with reference semantics that is not modelled exactly (a
+second name for a slice's storage with a later write/append/pass to a writing
+callee, &x, closures, method values, named results, writes into a parameter's
+storage that is not a declared state output, a range whose body writes the
+ranged slice) makes the definition go_unknown with the reason in a comment.
 """
 import json
 import os
@@ -64,6 +79,49 @@ TIES = {
 }
 
 
+# constructs in a generated definition that make a found disagreement a matter for review, not a violation
+NEEDS_REVIEW = ["(* alias-review"]
+
+
+def _blocks(path):
+    """name -> text of every top-level Definition/Fixpoint of a .v file (with its leading comment)."""
+    try:
+        src = open(path).read()
+    except OSError:
+        return {}
+    out = {}
+    starts = [m for m in re.finditer(r"^(?:\(\*[^\n]*\*\)\n)?(?:Definition|Fixpoint)\s+([A-Za-z0-9_']+)", src, re.M)]
+    for i, m in enumerate(starts):
+        end = starts[i + 1].start() if i + 1 < len(starts) else len(src)
+        blk = src[m.start():end]
+        stop = re.search(r"\.[ \t]*\n[ \t]*\n", blk)     # a definition ends with ".", then a blank line
+        out[m.group(1)] = (blk[:stop.start() + 1] if stop else blk).strip()
+    return out
+
+
+def generated_text(area, cands, gen, fname):
+    """The generated definitions cex_<fname> runs: closure of the identifiers it mentions through the
+    candidates file and the generated file.  Returns (text, [names])."""
+    cb = _blocks(os.path.join(vlib.COQ, "theories/%s/%s.v" % (area, cands)))
+    gb = _blocks(os.path.join(vlib.COQ, "theories/Gen/Code%s.v" % gen))
+    seen, todo, picked = set(), ["cex_" + fname], []
+    while todo:
+        n = todo.pop()
+        if n in seen:
+            continue
+        seen.add(n)
+        blk = gb.get(n) if n in gb else cb.get(n)
+        if blk is None:
+            continue
+        if n in gb:
+            picked.append(n)
+        for w in re.findall(r"[A-Za-z_][A-Za-z0-9_']*", blk):
+            if w not in seen and (w in gb or w in cb):
+                todo.append(w)
+    order = [n for n in gb if n in picked]
+    return "\n\n".join(gb[n] for n in order), order
+
+
 def functions(pid):
     """SEMANTIC_TIE of a property: the functions covered by a proved refinement lemma."""
     return list(TIES[pid]["functions"])
@@ -81,7 +139,7 @@ def show_coq_bytes(s):
     return s.replace("[]", '""').replace("%N", "").replace("%Z", "")
 
 
-def code_cex(ck, area, cands="CodeCands", timeout=600):
+def code_cex(ck, area, cands="CodeCands", timeout=600, gen=None):
     """Evaluate every `cex_<f>` of theories/<area>/<cands>.v with vm_compute; report disagreements.
     Returns the names of the functions for which an input was found."""
     cpath = "theories/%s/%s.v" % (area, cands)
@@ -95,6 +153,28 @@ def code_cex(ck, area, cands="CodeCands", timeout=600):
     rc, out = vlib.sh(["make", "-j16", cpath[:-2] + ".vo"], cwd=vlib.COQ, timeout=timeout)
     found = []
     res = {}
+
+    def report(fname, text, replay):
+        """violation code:<fname> with the generated definitions - unless they need review."""
+        gtxt, gnames = generated_text(area, cands, gen or area, fname)
+        review = [c for c in NEEDS_REVIEW if c in gtxt]
+        replay = dict(replay, generated_definitions=gtxt, generated_names=gnames)
+        if review:
+            res[fname + " (needs review)"] = {
+                "why": "the generated definition uses a construct next to Go's reference semantics (%s); the "
+                       "disagreement is not claimed as a failing input of the real code" % ", ".join(review),
+                "disagreement": text, "replay": replay}
+            ck.notes.append("code_cex %s: a disagreement for %s was found but NOT reported as a violation: its "
+                            "generated definition contains %s (review the translation in theories/Gen/Code%s.v "
+                            "against the Go source); the refinement lemma stays a broken obligation. %s"
+                            % (area, fname, ", ".join(review), gen or area, text[:400]))
+            return
+        found.append(fname)
+        shown = gtxt if len(gtxt) <= 6000 else gtxt[:6000] + "\n... (cut; whole text in the replay)"
+        ck.violation("code:" + fname,
+                     text + "\nGenerated Gallina definition(s) this was computed with (theories/Gen/Code%s.v; "
+                     "compare with the Go source before acting on the input):\n%s" % (gen or area, shown), replay)
+
     if rc != 0:
         ck.notes.append("code_cex %s: candidates do not build (a generated definition is untranslatable or "
                         "changed its type): %s" % (area, out[-400:]))
@@ -122,9 +202,8 @@ def code_cex(ck, area, cands="CodeCands", timeout=600):
                     m2 = re.search(r"\[\(((?:(?!\[\().){0,600}?go_junk.{0,300}?)\)\]", body)
                     shown = show_coq_bytes(m2.group(1)) if m2 else body[:300]
                     res[parts[i]] = "stuck on go_junk: " + shown[:400]
-                    found.append(parts[i])
-                    ck.violation(
-                        "code:" + parts[i],
+                    report(
+                        parts[i],
                         "the Go code as translated now reaches a panic site (go_junk: slice/index out of range or "
                         "division by zero) on a candidate input where the proved model returns normally: "
                         "(input, (code result, model result)) = %s" % shown[:600],
@@ -133,9 +212,8 @@ def code_cex(ck, area, cands="CodeCands", timeout=600):
                     continue
                 res[parts[i]] = val
                 if val.startswith("Some"):
-                    found.append(parts[i])
-                    ck.violation(
-                        "code:" + parts[i],
+                    report(
+                        parts[i],
                         "the Go code as translated now and the proved model disagree on a concrete input: "
                         "(input, (code result, model result)) = %s" % show_coq_bytes(val[4:].strip()),
                         {"function": parts[i], "coq_value": val,
@@ -162,7 +240,7 @@ def run(ck, pid):
     if ok and ck.thorough:
         ck.coqchk(["Verif.Props.%sCode" % pid])
     if not ok:
-        code_cex(ck, tie["area"], tie["cands"])
+        code_cex(ck, tie["area"], tie["cands"], gen=tie.get("gen", tie["area"]))
     ck.coverage["semantic_tie"] = {"functions": tie["functions"], "proved": ok,
                                    "files": [props, refine, "theories/Gen/Code%s.v" % tie.get("gen", tie["area"])]}
     ck.trusted.append("translator gen/gotrans.go + Lib/GoLib.v: Go body -> Gallina on every run, proved equal to "
